@@ -62,7 +62,7 @@ impl Area for A {
                 let bad = [
                     "rule q", "rule", "pref 9 a", "pref 1 x", "pref a a", "dep 7 +", "dep 1 *", "odep 1:1,9:2", "odep 1:",
                     "wd 9 1", "wd 1", "wd 1 1001", "try r - 0 1:1,2:2", "try a - 0 -", "try x - 0 1:1", "try br 9 0 1:1",
-                    "try br - 16 1:1", "try br - 0 1:1001", "try ba - 0 1;1", "try", "reset", "reset foo", "hello", "try r 0 0 5:1",
+                    "try br - 16 1:1", "try br - 0 1:1001", "try ba - 0 1;1", "try", "reset", "reset foo", "hello", "try r 0 0 5:1", "!rule q", "!try r - 0 1:1", "!odep 9:1", "!",
                 ];
                 for _ in 0..4 {
                     writeln!(out, "{}", rng.pick(&bad)).unwrap();
@@ -79,7 +79,20 @@ impl Area for A {
                 writeln!(out, "rule {}", rng.pick(&["r", "e", "e"])).unwrap();
             }
             for _ in 0..len {
-                match rng.below(20) {
+                match rng.below(21) {
+                    20 => {
+                        let l = match rng.below(5) {
+                            0 => format!("!rule {}", rng.pick(&["a", "r", "e"])),
+                            1 => format!("!pref {} {}", rng.below(NR as u64), rng.pick(&["a", "d", "n"])),
+                            2 => format!("!dep {} {}", rng.below(NG as u64), rng.pick(&["+", "-"])),
+                            3 => {
+                                let l = 1 + rng.below(2) as usize;
+                                format!("!odep {}", gen_buckets(rng, l))
+                            }
+                            _ => format!("!wd {} {}", if !used.is_empty() { *rng.pick(&used) } else { 0 }, rng.below(3)),
+                        };
+                        writeln!(out, "{}", l).unwrap()
+                    }
                     0..=1 => writeln!(out, "rule {}", rng.pick(&["a", "r", "e", "e"])).unwrap(),
                     2..=4 => writeln!(out, "pref {} {}", rng.below(NR as u64), rng.pick(&["a", "d", "d", "n"])).unwrap(),
                     5..=7 => {
@@ -540,7 +553,12 @@ impl R {
     }
 
     /// owner configuration / deposit / withdraw calls
-    fn owner_op(&mut self, t: &[&str]) -> Answer {
+    fn owner_op(&mut self, t0: &[&str]) -> Answer {
+        // `!op` = the same call without the owner's signature
+        let stranger = t0[0].starts_with('!');
+        let mut tv: Vec<&str> = t0.to_vec();
+        tv[0] = tv[0].trim_start_matches('!');
+        let t: &[&str] = &tv;
         let before = self.obs.clone().unwrap();
         let w = self.w();
         let (a, s, pk_a, pk_s) = (w.a, w.s, w.pk_a, w.pk_s);
@@ -653,6 +671,7 @@ impl R {
             }
             _ => return Answer::ok("bad-op"),
         };
+        let signers: Vec<Secp256k1PublicKey> = if stranger { signers.into_iter().filter(|k| *k != pk_a).chain([pk_s]).collect() } else { signers };
         let tx = self.execute(manifest, signers, None);
         let after = self.w().observe();
         self.obs = Some(after.clone());
@@ -662,6 +681,16 @@ impl R {
         } else {
             format!("{} ev=- ret=- st={}", tx.outcome, show_state(&after))
         };
+        if stranger {
+            // oracle: the deposit rules cannot be edited or bypassed without the owner role
+            if ok {
+                return Answer::fail(ans, format!("c39:{}:owner-method-without-owner", t[0]), "an owner-role method succeeded without the owner's signature");
+            }
+            if after != before {
+                return Answer::fail(ans, format!("c39:{}:failed-call-changed-state", t[0]), format!("before {:?} after {:?}", before, after));
+            }
+            return Answer::ok(ans);
+        }
         // oracle: owner calls change exactly what they name
         if may_fail {
             if ok {
@@ -942,7 +971,7 @@ impl Runner for R {
                 Answer::ok(ans)
             }
             _ if self.obs.is_none() => Answer::ok("bad-op"),
-            "rule" | "pref" | "dep" | "odep" | "wd" => self.owner_op(&t),
+            "rule" | "pref" | "dep" | "odep" | "wd" | "!rule" | "!pref" | "!dep" | "!odep" | "!wd" => self.owner_op(&t),
             "try" => self.try_op(&t),
             _ => Answer::ok("bad-op"),
         }
